@@ -159,6 +159,9 @@ func (p *Program) implementations(iface types.Type) []types.Type {
 		if n.TypeParams() != nil && n.TypeParams().Len() > 0 {
 			continue
 		}
+		if n.Obj().Pkg() != nil && strings.HasSuffix(n.Obj().Pkg().Path(), "/testutil") {
+			continue // test doubles are not part of the program under verification
+		}
 		if types.Implements(n, it) {
 			res = append(res, n)
 		} else if pt := types.NewPointer(n); types.Implements(pt, it) {
